@@ -6,9 +6,12 @@ package main
 import (
 	"bytes"
 	"fmt"
+	"github.com/consensys/gnark-crypto/field/babybear"
+	"github.com/consensys/gnark-crypto/field/koalabear"
 	"math/big"
 	"reflect"
 	"regexp"
+	"sort"
 	"strings"
 
 	"github.com/consensys/gnark-crypto/ecc"
@@ -97,9 +100,23 @@ func main() {
 			}
 		}
 	}
-	// tiny field: values reduce modulo 47
-	for _, s := range sel[:3] {
-		checkVector(c, s, circ.P47, "tiny", valueKinds()[0])
+	// the witness-vector side (order, Public(), public-only witness, binary / JSON round trips) on EVERY
+	// supported field: the seven curve fields, the small fields and the tiny test field (values reduce
+	// modulo the field)
+	all := map[string]*big.Int{"tiny": circ.P47, "babybear": babybear.Modulus(), "koalabear": koalabear.Modulus()}
+	for _, id := range []ecc.ID{ecc.BN254, ecc.BLS12_377, ecc.BLS12_381, ecc.BLS24_315, ecc.BLS24_317, ecc.BW6_633, ecc.BW6_761} {
+		all[id.String()+"-vec"] = id.ScalarField()
+	}
+	var names []string
+	for n := range all {
+		names = append(names, n)
+	}
+	sort.Strings(names)
+	for _, n := range names {
+		for _, s := range sel[:3] {
+			checkVector(c, s, all[n], n, valueKinds()[0])
+		}
+		c.Outcome("vector:" + n)
 	}
 	c.Finish()
 }
@@ -142,7 +159,9 @@ func featureClass(s c07shapes.Shape, kind string) string {
 var embTag = regexp.MustCompile("emb\\{[^}]*(\\{[^}]*\\}[^}]*)*\\}`[^`]+`")
 
 func checkVector(c *vh.Check, s c07shapes.Shape, p *big.Int, fname string, vk valueKind) (witness.Witness, bool) {
-	key := func(x string) string { return fmt.Sprintf("c07:%s:{%s}:%s:%s:%s", featureClass(s, x), s.Desc, fname, vk.name, x) } // keyed by the shape itself, not by its number
+	key := func(x string) string {
+		return fmt.Sprintf("c07:%s:{%s}:%s:%s:%s", featureClass(s, x), s.Desc, fname, vk.name, x)
+	} // keyed by the shape itself, not by its number
 	det := map[string]any{"shape": s.Name, "fields": s.Desc, "field": fname, "value_type": vk.name}
 	asg := s.Assign(func(i int) any { return vk.mk(int64(101+i), p) })
 	var w witness.Witness
@@ -225,7 +244,9 @@ func checkShape(c *vh.Check, s c07shapes.Shape, p *big.Int, fname string, vk val
 	if !compile {
 		return
 	}
-	key := func(x string) string { return fmt.Sprintf("c07:%s:{%s}:%s:%s:%s", featureClass(s, x), s.Desc, fname, vk.name, x) } // keyed by the shape itself, not by its number
+	key := func(x string) string {
+		return fmt.Sprintf("c07:%s:{%s}:%s:%s:%s", featureClass(s, x), s.Desc, fname, vk.name, x)
+	} // keyed by the shape itself, not by its number
 	if s.NLeaves == 0 {
 		return // a circuit without any variable: nothing to bind
 	}
